@@ -66,7 +66,7 @@ func genC12() *rapid.Generator[Case] {
 		case "oversize":
 			pos := rapid.IntRange(0, len(bad.Ops)).Draw(t, "bigpos")
 			ops := append([]Op(nil), bad.Ops[:pos]...)
-			ops = append(ops, Op{K: "putbig", B: S(buckets[0]), Key: "big"})
+			ops = append(ops, Op{K: "putbig", B: S(buckets[0]), Key: "big", I: rapid.SampledFrom([]int{0, 1, 1, 2, 3}).Draw(t, "excess")})
 			ops = append(ops, bad.Ops[pos:]...)
 			bad.Ops = ops
 		case "readonly":
